@@ -1,4 +1,5 @@
 mod adapt;
+mod diff;
 mod harness;
 mod props;
 mod run;
@@ -16,6 +17,7 @@ fn usage() -> ! {
 }
 
 fn main() {
+    engine_core::gen::names::check_pools();
     let args: Vec<String> = std::env::args().collect();
     if args.len() < 2 {
         usage();
